@@ -45,10 +45,50 @@ from autofit.non_linear.result import Placeholder
 
 MAXW = 4
 NEVAL = 4096
-WAIT = 120.0         # seconds a scheduled completion may take before the run is declared stuck
+WAIT = 40.0          # seconds a scheduled completion may take before the run is declared stuck
 GATES = [mp.Semaphore(0) for _ in range(MAXW)]
-GATED = mp.Value("i", 0)
-EVALS = mp.Array("i", NEVAL)
+# Shared state is LOCK-FREE on purpose: worker processes are terminated at the end of every case, and a worker killed
+# while it holds the lock of a synchronized Value/Array would leave that lock held for ever (the parent then blocks in
+# `GATED.value = 0` where no alarm can help).  GATED is written by the parent only; evaluation counts are kept in one
+# array per worker (each written by that worker only) and summed by the parent.
+GATED = mp.Value("i", 0, lock=False)
+
+
+class EvalCounts:
+    def __init__(self):
+        self.arrays = [mp.RawArray("i", NEVAL) for _ in range(MAXW + 1)]
+
+    def bump(self, jid):
+        w = _worker_index()
+        self.arrays[w if w is not None and w < MAXW else MAXW][jid] += 1
+
+    def __getitem__(self, jid):
+        return sum(a[jid] for a in self.arrays)
+
+    def __setitem__(self, jid, value):
+        for a in self.arrays:
+            a[jid] = 0
+
+
+EVALS = EvalCounts()
+
+
+def _die_with_parent():
+    """PR_SET_PDEATHSIG: nothing of this driver survives the process that started it"""
+    try:
+        import ctypes
+        ctypes.CDLL("libc.so.6", use_errno=True).prctl(1, signal.SIGKILL)
+    except Exception:  # noqa
+        pass
+
+
+class _AfterFork:
+    pass
+
+
+_AFTER_FORK = _AfterFork()
+_die_with_parent()
+mp.util.register_after_fork(_AFTER_FORK, lambda _obj: _die_with_parent())
 
 
 class Stall(Exception):
@@ -84,8 +124,7 @@ def _enter(jid, delay_ms=0):
         GATES[w].acquire()
     elif delay_ms:
         time.sleep(delay_ms / 1000.0)
-    with EVALS.get_lock():
-        EVALS[jid] += 1
+    EVALS.bump(jid)
 
 
 def fval(x):
@@ -680,8 +719,7 @@ class NumJob(process_mod.AbstractJob):
         if w is not None:
             if not GATED.value and self.delay:
                 time.sleep(self.delay / 1000.0)
-            with EVALS.get_lock():
-                EVALS[self.number] += 1
+            EVALS.bump(self.number)
         if self.mode == 1:
             raise WorkError(self.x)
         return GridJobResult(SimpleNamespace(samples_summary=fval(self.x)), [self.number, fval(self.x)], self.number)
@@ -828,8 +866,7 @@ from autofit.non_linear.grid import sensitivity as sens_mod
 
 def _count_eval(jid):
     if _worker_index() is not None:
-        with EVALS.get_lock():
-            EVALS[jid] += 1
+        EVALS.bump(jid)
 
 
 class CellError(ValueError):
@@ -1080,12 +1117,72 @@ KINDS = {"emcee_run": case_emcee_run, "smap_twofit": case_smap_twofit, "sneakier
          "jobs": case_jobs, "jobs_free": case_jobs_free}
 
 
+def case_limit(c):
+    """seconds one case may take (a steered case normally takes well under a second)"""
+    if c["kind"] == "jobs_race":
+        return 30 + 0.3 * int(c.get("repeat", 0))
+    return 45
+
+
+def kill_children():
+    for p in mp.active_children():
+        try:
+            p.kill()
+        except Exception:  # noqa
+            pass
+    # anything else that descends from this driver
+    me = os.getpid()
+    try:
+        for d in os.listdir("/proc"):
+            if d.isdigit():
+                try:
+                    with open("/proc/%s/stat" % d) as f:
+                        ppid = int(f.read().rsplit(")", 1)[1].split()[1])
+                    if ppid == me:
+                        os.kill(int(d), signal.SIGKILL)
+                except (OSError, ValueError, IndexError):
+                    pass
+    except OSError:
+        pass
+
+
 def main():
-    cases = json.load(open(sys.argv[1]))["cases"]
+    payload = json.load(open(sys.argv[1]))
+    cases = payload["cases"]
+    budget = float(payload.get("budget", 600))
+    deadline = time.time() + budget
     out = []
+    state = {"current": None}
+
+    def finalize(reason):
+        """write what there is; every case without a result is reported, the one that was running as stuck"""
+        res = list(out)
+        for i in range(len(res), len(cases)):
+            if i == state["current"]:
+                res.append({"exc": "Timeout", "msg": "the case was still running when the driver's time budget (%d s) ended (%s)" % (budget, reason)})
+            else:
+                res.append({"exc": "NotRun", "msg": "driver budget exhausted before this case"})
+        with open(sys.argv[2], "w") as f:
+            json.dump({"results": res}, f)
+        kill_children()
+        os._exit(0)
+
+    def watchdog():
+        while time.time() < deadline + 15:
+            time.sleep(1.0)
+        finalize("watchdog: the main thread did not react to its alarm")
+
+    import threading
+    threading.Thread(target=watchdog, daemon=True).start()
+
     for ci, c in enumerate(cases):
         c.setdefault("idx", ci)
-        signal.alarm(400 + 2 * int(c.get("repeat", 0)))
+        remaining = deadline - time.time()
+        if remaining < 3:
+            out.append({"exc": "NotRun", "msg": "driver budget exhausted before this case"})
+            continue
+        state["current"] = ci
+        signal.alarm(max(1, int(min(case_limit(c), remaining))))
         try:
             t0 = time.time()
             out.append({"ok": KINDS[c["kind"]](c)})
@@ -1095,22 +1192,27 @@ def main():
         except RaceHang as e:
             out.append({"exc": "RaceHang", "msg": str(e)[:300]})
         except CaseTimeout:
-            out.append({"exc": "Timeout", "msg": "case did not finish within its (400 s) limit"})
+            out.append({"exc": "Timeout", "msg": "case did not finish within its limit of %d s" % int(min(case_limit(c), remaining))})
         except BaseException as e:  # noqa
             import traceback
             out.append({"exc": type(e).__name__, "msg": (str(e) + " | " + traceback.format_exc()[-600:])[:900]})
         finally:
             signal.alarm(0)
             try:
+                signal.alarm(20)
                 cleanup_children()
             except BaseException:  # noqa
-                pass
+                kill_children()
+            finally:
+                signal.alarm(0)
+        if len(out) < ci + 1:
+            out.append({"exc": "Timeout", "msg": "clean-up of the case did not finish"})
+    state["current"] = None
     with open(sys.argv[2], "w") as f:
         json.dump({"results": out}, f)
     sys.stdout.flush()
     sys.stderr.flush()
-    for p in mp.active_children():
-        p.kill()
+    kill_children()
     os._exit(0)
 
 
